@@ -741,6 +741,12 @@ static void process_downstream_ack(int userid, int down_seq, int down_frag)
 		   ack, happens a lot with ping packets */
 		return;
 
+	if (users[userid].outpacket.sentlen <= 0)
+		/* Nothing of this fragment has been sent yet, so this is a
+		   stale ack that happens to carry the numbers of a freshly
+		   started packet; don't let it bump the fragment number */
+		return;
+
 	/* Received proper ack */
 	users[userid].outpacket.offset += users[userid].outpacket.sentlen;
 	users[userid].outpacket.sentlen = 0;
